@@ -301,9 +301,12 @@ func main() {
 	}
 	for _, bad := range [][]byte{{0xee, 0xee, 0xee, 0xef}, {0xee, 0, 0, 0}, {0xee, 0xee}} {
 		cconn := transport.VerifNewTCPConnFromReader(context.Background(), &segReader{data: bad}, io.Discard)
-		_, err := mode.Detect(cconn)
+		var err error
+		pp, pm, _ := vr.Try(func() { _, err = mode.Detect(cconn) })
 		run.Eval(fmt.Sprintf("detect %x", bad), true)
-		if err == nil {
+		if pp {
+			run.Violation("detect|panic", fmt.Sprintf("Detect panics on % x: %s", bad, pm), nil)
+		} else if err == nil {
 			run.Violation("detect|partial-intermediate-announcement-accepted", fmt.Sprintf("Detect accepts % x", bad), nil)
 		}
 	}
